@@ -18,10 +18,13 @@ import (
 	"log"
 	"net"
 	"os"
+	"os/exec"
+	"os/signal"
 	"sort"
 	"strconv"
 	"strings"
 	"sync"
+	"syscall"
 	"time"
 
 	"github.com/hashicorp/memberlist"
@@ -54,6 +57,17 @@ type Trace struct {
 	Entry   string   `json:"entry"` // EO EN CC
 	Steps   []Step   `json:"steps"`
 	Ps      []PsStep `json:"ps,omitempty"` // pub/sub trace (C14)
+	P       uint64    `json:"p,omitempty"`
+	Mem     []MemStep `json:"mem,omitempty"` // membership trace (C13): the cluster starts with Members members
+	Table0  [][2][]string `json:"table0,omitempty"`
+}
+
+// MemStep is one membership event with the routing table the simulated cluster (harness-driven
+// membership layer) settles on afterwards: per partition the primary owners and the backup owners.
+type MemStep struct {
+	Op    string        `json:"op"`  // join leave crash
+	Idx   int           `json:"idx"` // member index (address 127.0.0.1:41001+idx)
+	Table [][2][]string `json:"table"`
 }
 
 // PsStep is one pub/sub step with the observations of the simulated run: the PUBLISH reply and the
@@ -595,7 +609,243 @@ func printable(s string) bool {
 	return true
 }
 
+// ---- membership (child processes, real memberlist, real failure detector) ------------------------
+
+const simBasePort, simMLBasePort = 41001, 42001
+
+// runMember is the child mode: conform member <idx> <R> <P> <peer memberlist addr>...
+func runMember(args []string) {
+	idx, _ := strconv.Atoi(args[0])
+	r, _ := strconv.Atoi(args[1])
+	p, _ := strconv.Atoi(args[2])
+	c := config.New("local")
+	c.PartitionCount = uint64(p)
+	c.ReplicaCount = r
+	c.WriteQuorum, c.ReadQuorum, c.MemberCountQuorum = 1, 1, 1
+	c.BindAddr = "127.0.0.1"
+	c.BindPort = simBasePort + idx
+	mc := memberlist.DefaultLocalConfig()
+	mc.BindAddr = "127.0.0.1"
+	mc.BindPort = simMLBasePort + idx
+	mc.AdvertisePort = mc.BindPort
+	mc.ProbeInterval = 100 * time.Millisecond
+	mc.ProbeTimeout = 50 * time.Millisecond
+	mc.GossipInterval = 20 * time.Millisecond
+	mc.SuspicionMult = 1
+	c.MemberlistConfig = mc
+	c.Peers = args[3:]
+	c.Logger = log.New(io.Discard, "", 0)
+	c.LogOutput = io.Discard
+	c.LogVerbosity = 1
+	c.RoutingTablePushInterval = 200 * time.Millisecond
+	c.TriggerBalancerInterval = 100 * time.Millisecond
+	c.Started = func() { fmt.Println("STARTED"); os.Stdout.Sync() }
+	db, err := olric.New(c)
+	if err != nil {
+		fmt.Println("ERROR", err)
+		os.Exit(3)
+	}
+	sig := make(chan os.Signal, 1)
+	signal.Notify(sig, syscall.SIGTERM)
+	go func() {
+		<-sig
+		ctx, cancel := context.WithTimeout(context.Background(), 10*time.Second)
+		defer cancel()
+		_ = db.Shutdown(ctx)
+	}()
+	if err := db.Start(); err != nil {
+		fmt.Println("ERROR", err)
+		os.Exit(3)
+	}
+	os.Exit(0)
+}
+
+type child struct {
+	cmd *exec.Cmd
+	idx int
+}
+
+func portFree(p int) bool {
+	l, err := net.Listen("tcp", fmt.Sprintf("127.0.0.1:%d", p))
+	if err != nil {
+		return false
+	}
+	l.Close()
+	return true
+}
+
+func replayMembership(t Trace) (string, error) {
+	live := map[int]*child{}
+	defer func() {
+		for _, c := range live {
+			_ = c.cmd.Process.Kill()
+			_, _ = c.cmd.Process.Wait()
+		}
+		time.Sleep(200 * time.Millisecond)
+	}()
+	start := func(idx int) error {
+		for i := 0; i < 50 && !(portFree(simBasePort+idx) && portFree(simMLBasePort+idx)); i++ {
+			time.Sleep(100 * time.Millisecond)
+		}
+		if !portFree(simBasePort+idx) || !portFree(simMLBasePort+idx) {
+			return fmt.Errorf("port %d or %d is in use", simBasePort+idx, simMLBasePort+idx)
+		}
+		args := []string{"member", strconv.Itoa(idx), strconv.Itoa(t.R), strconv.Itoa(int(t.P))}
+		var idxs []int
+		for i := range live {
+			idxs = append(idxs, i)
+		}
+		sort.Ints(idxs)
+		for _, i := range idxs {
+			args = append(args, fmt.Sprintf("127.0.0.1:%d", simMLBasePort+i))
+		}
+		cmd := exec.Command(os.Args[0], args...)
+		out, err := cmd.StdoutPipe()
+		if err != nil {
+			return err
+		}
+		if err := cmd.Start(); err != nil {
+			return err
+		}
+		okc := make(chan string, 1)
+		go func() {
+			sc := bufio.NewScanner(out)
+			for sc.Scan() {
+				okc <- sc.Text()
+				break
+			}
+			io.Copy(io.Discard, out)
+		}()
+		select {
+		case l := <-okc:
+			if l != "STARTED" {
+				_ = cmd.Process.Kill()
+				return fmt.Errorf("member %d: %s", idx, l)
+			}
+		case <-time.After(30 * time.Second):
+			_ = cmd.Process.Kill()
+			return fmt.Errorf("member %d did not start within 30s", idx)
+		}
+		live[idx] = &child{cmd, idx}
+		return nil
+	}
+	stop := func(idx int, sig syscall.Signal) error {
+		c := live[idx]
+		if c == nil {
+			return fmt.Errorf("member %d is not running", idx)
+		}
+		delete(live, idx)
+		_ = c.cmd.Process.Signal(sig)
+		done := make(chan struct{})
+		go func() { _, _ = c.cmd.Process.Wait(); close(done) }()
+		select {
+		case <-done:
+		case <-time.After(20 * time.Second):
+			_ = c.cmd.Process.Kill()
+			return fmt.Errorf("member %d did not exit", idx)
+		}
+		return nil
+	}
+	// table reads CLUSTER.ROUTINGTABLE through every live member and the member count each one sees
+	table := func() (string, error) {
+		var first string
+		for idx := range live {
+			rc := redis.NewClient(&redis.Options{Addr: fmt.Sprintf("127.0.0.1:%d", simBasePort+idx), MaxRetries: -1, DialTimeout: time.Second, ReadTimeout: 2 * time.Second})
+			res, err := rc.Do(context.Background(), "cluster.routingtable").Slice()
+			var ms []interface{}
+			if err == nil {
+				ms, err = rc.Do(context.Background(), "cluster.members").Slice()
+			}
+			rc.Close()
+			if err != nil {
+				return "", err
+			}
+			if len(ms) != len(live) {
+				return fmt.Sprintf("member %d sees %d members, %d are running", idx, len(ms), len(live)), nil
+			}
+			var tab [][2][]string
+			for _, row := range res {
+				r := row.([]interface{})
+				var e [2][]string
+				for k := 0; k < 2; k++ {
+					e[k] = []string{}
+					for _, o := range r[1+k].([]interface{}) {
+						e[k] = append(e[k], o.(string))
+					}
+				}
+				tab = append(tab, e)
+			}
+			s := fmt.Sprint(tab)
+			if first == "" {
+				first = s
+			} else if s != first {
+				return "members answer different tables", nil
+			}
+		}
+		return first, nil
+	}
+	settle := func(where string, want [][2][]string) (string, error) {
+		ws := fmt.Sprint(want)
+		var last string
+		var lastErr error
+		deadline := time.Now().Add(25 * time.Second)
+		okSince := time.Time{}
+		for time.Now().Before(deadline) {
+			got, err := table()
+			last, lastErr = got, err
+			if err == nil && got == ws {
+				if okSince.IsZero() {
+					okSince = time.Now()
+				}
+				if time.Since(okSince) > 1500*time.Millisecond { // and it stays that way
+					return "", nil
+				}
+			} else {
+				okSince = time.Time{}
+			}
+			time.Sleep(100 * time.Millisecond)
+		}
+		if lastErr != nil {
+			return "", fmt.Errorf("%s: %v", where, lastErr)
+		}
+		return fmt.Sprintf("%s: the real cluster settles on %s, the simulated one on %s", where, last, ws), nil
+	}
+	for i := 0; i < t.Members; i++ {
+		if err := start(i); err != nil {
+			return "", err
+		}
+	}
+	if d, err := settle(fmt.Sprintf("trace %s initial %d members", t.ID, t.Members), t.Table0); d != "" || err != nil {
+		return d, err
+	}
+	for si, st := range t.Mem {
+		where := fmt.Sprintf("trace %s step %d (%s member%d)", t.ID, si, st.Op, st.Idx)
+		var err error
+		switch st.Op {
+		case "join":
+			err = start(st.Idx)
+		case "leave":
+			err = stop(st.Idx, syscall.SIGTERM)
+		case "crash":
+			err = stop(st.Idx, syscall.SIGKILL)
+		default:
+			err = fmt.Errorf("unknown step %q", st.Op)
+		}
+		if err != nil {
+			return "", fmt.Errorf("%s: %v", where, err)
+		}
+		if d, err := settle(where, st.Table); d != "" || err != nil {
+			return d, err
+		}
+	}
+	return "", nil
+}
+
 func main() {
+	if len(os.Args) >= 5 && os.Args[1] == "member" {
+		runMember(os.Args[2:])
+		return
+	}
 	if len(os.Args) != 3 || os.Args[1] != "replay" {
 		fmt.Fprintln(os.Stderr, "usage: conform replay <traces.jsonl>")
 		os.Exit(2)
@@ -619,9 +869,22 @@ func main() {
 			fmt.Fprintln(os.Stderr, "bad trace:", err)
 			os.Exit(2)
 		}
-		if len(t.Steps) > 0 || len(t.Ps) > 0 {
+		if len(t.Steps) > 0 || len(t.Ps) > 0 || len(t.Mem) > 0 {
 			traces = append(traces, t)
 		}
+	}
+	// membership traces bring their own members (child processes under the simulated run's addresses)
+	var memTraces []Trace
+	{
+		var rest []Trace
+		for _, t := range traces {
+			if len(t.Mem) > 0 {
+				memTraces = append(memTraces, t)
+			} else {
+				rest = append(rest, t)
+			}
+		}
+		traces = rest
 	}
 	// group by cluster shape so that one real cluster serves many traces
 	type shape struct{ n, r int }
@@ -634,8 +897,22 @@ func main() {
 		shapes = append(shapes, s)
 	}
 	sort.Slice(shapes, func(i, j int) bool { return shapes[i].n*10+shapes[i].r < shapes[j].n*10+shapes[j].r })
-	sum := Summary{Traces: len(traces), Disagreements: []string{}}
+	sum := Summary{Traces: len(traces) + len(memTraces), Disagreements: []string{}}
 	seq := 0
+	for _, t := range memTraces {
+		d, err := replayMembership(t)
+		switch {
+		case err != nil:
+			sum.Inconclusive++
+			fmt.Fprintf(os.Stderr, "conform: trace %s: %v\n", t.ID, err)
+		case d != "":
+			if len(sum.Disagreements) < 20 {
+				sum.Disagreements = append(sum.Disagreements, d)
+			}
+		default:
+			sum.Validated++
+		}
+	}
 	for _, s := range shapes {
 		cl, err := startCluster(s.n, s.r)
 		if err != nil {
